@@ -149,7 +149,7 @@ def replays(failed):
     yield ("positional binding", "[a, b, c] := [1, 2, 3]\nprint(a)\nprint(b)\nprint(c)\n", _expect("1\n2\n3\n"))
     yield ("collect gets exactly the rest", "[a, ..r] := [1, 2, 3]\nprint(a)\nfor x in r {\n    print(x[1])\n}\n", _expect("1\n2\n3\n"))
     yield ("collect of nothing is an empty list", "[a, b, ..r] := [1, 2]\nn := 0\nfor x in r {\n    n += 1\n}\nprint(n)\n", _expect("0\n"))
-    yield ("prefix + rest == source", "xs := [1, 2, 3, 4]\n[a, b, ..r] := xs\nprint([a, b] + r == xs)\n", _expect("true\n"))
+    yield ("prefix + rest == source", "xs := [1, 2, 3, 4]\n[a, b, ..r] := xs\nprint(([a, b] + r) == xs)\n", _expect("true\n"))
     yield ("too few for collect", "[a, b, ..r] := [1]\n", _expect(err_sub="1:1:"))
     yield ("length mismatch", "[a, b] := [1, 2, 3]\n", _expect(err_sub="1:1:"))
     yield ("length mismatch (short)", "[a, b] := [1]\n", _expect(err_sub="1:1:"))
